@@ -230,6 +230,12 @@ func concPrograms(thorough bool) []*cprog {
 	}
 	ps = append(ps, &cprog{Name: "P9 stale session: cleanup;login (one thread, as in the Read loop) || events of another session", Sess: ev3, Logins: l2, Bound: -1,
 		Prefix: []Op{A(0, 0)}, Threads: [][]Op{{CU, CR, L(0)}, {A(1, 0), A(1, 1)}}, Suffix: probe2})
+	// P10: records without a usable session (kernel daemons: "unset", or none at all) arrive from two threads
+	// next to ordinary traffic; nothing of them is tracked or emitted, and - in the free-running race pass -
+	// whatever the tracker does for them before taking a lock is exercised by two goroutines at once.
+	ev4 := append(append([]SessDef{}, ev3...), SessDef{ID: "unset", PID: "103", Events: full4}, SessDef{ID: "", PID: "104", Events: full4})
+	ps = append(ps, &cprog{Name: "P10 session-less records from two threads || login", Sess: ev4, Logins: l2, Bound: -1,
+		Prefix: []Op{A(0, 0)}, Threads: [][]Op{{A(2, 0), A(2, 3), A(0, 1)}, {A(3, 3), A(2, 1), A(3, 0)}, {L(0)}}, Suffix: probe1})
 	big := []*cprog{
 		{Name: "P2 login || LOGIN+EV || LOGIN+EV of another session", Sess: ev3, Logins: l2, Bound: -1,
 			Threads: [][]Op{{L(0)}, {A(0, 0), A(0, 1)}, {A(1, 0), A(1, 1)}}, Suffix: probe2},
